@@ -690,7 +690,14 @@ def in2(F, R):
                     body_blocks = {bi for bi in lb.reachable if any(is_iter_protocol_fact(f) and f[2] == frozenset(["Some"]) and
                                                                      strip_sites(strip_load(strip_load(f[1])[1])[1]) == strip_sites(it.it)
                                                                      for f in lb.facts_in().get(bi, frozenset()))}
-                    st = [x for x in st if x in body_blocks]
+                    # the `next` call is followed by the block that switches on its result: step over it into the Some arm
+                    st2 = []
+                    for x in st:
+                        if x in body_blocks:
+                            st2.append(x)
+                        else:
+                            st2 += [y for y, _ in lb.succ[x] if y in body_blocks]
+                    st = st2
                     while st:
                         x = st.pop()
                         if x in seen_b or x in blocks:
